@@ -195,7 +195,15 @@ def tlc(ctx, module, cfg, workers=None, timeout=900, env=None, extra=None, tag=N
 
 def spec_check(ctx, module, cfg, workers=None, timeout=900, env=None, expect_min_states=2, heap=None, note=""):
     """Exhaustive model check of the specification itself; a counterexample of the spec is exit 2 (spec bug)."""
-    r = tlc(ctx, module, cfg, workers=workers, timeout=timeout, env=env, heap=heap)
+    try:
+        # a quick-tier model check takes well under a minute; TLC was seen (once in several hundred runs, on a loaded
+        # machine) to sit idle for ever: give up early and try once more before reporting an infrastructure error
+        r = tlc(ctx, module, cfg, workers=workers, timeout=min(timeout, 420) if ctx.quick else timeout, env=env, heap=heap)
+    except Infra as ex:
+        if "timed out" not in str(ex):
+            raise
+        log("TLC %s/%s did not finish; second attempt" % (module, cfg))
+        r = tlc(ctx, module, cfg, workers=workers, timeout=timeout, env=env, heap=heap, tag="retry_" + module + "_" + cfg.replace(".cfg", ""))
     if not r.ok:
         raise Infra("specification %s/%s does not satisfy its properties or TLC failed (rc=%d):\n%s" %
                     (module, cfg, r.rc, r.tail(80)))
